@@ -56,7 +56,8 @@ ORIGINS = [
     Con("ONo"),
     Con("OCode", SOURCES[1], _R(pt_of_index(0), pt_of_index(2))),
     Con("OCode", SOURCES[1], _R(pt_of_index(3), pt_of_index(5))),
-    Con("OGen", SOURCES[3]),
+    Con("OGen", SOURCES[2]),   # (not SOURCES[3]: it EQUALS SOURCES[1] with another text, and a deserialized origin refers to
+                               #  whichever equal source the process registered first - C04's business, not this property's)
     Con("OXml", SOURCES[4], b"/a/b"),
 ]
 READ_KINDS = 10
@@ -134,13 +135,46 @@ def gen_rules(rng, u):
     return [norm(r) for r in rules]
 
 
-def inject_validators(u, src, rules):
-    """adds `def __post_init__(self): super(C, self).__post_init__(); <checks>; raise ValueError` to the classes named
-    by the rules (subclasses inherit it; cooperative super() so every rule along the MRO applies)"""
+# what a validating __post_init__ raises: the property speaks of "a replace() that raises", whatever is raised - the
+# library may not assume the exception class of a user subclass's validation.  BaseException-derived classes are not used.
+LATE_EXCS = ["ValueError", "TypeError", "RuntimeError", "KeyError", "AssertionError", "VerifRejected"]
+LATE_MARK = "verif-late-rejection"
+
+
+class VerifRejected(Exception):
+    """a user-defined exception class (the generated modules define their own class of this name)"""
+
+
+def gen_excs(rng, rules):
+    """one exception class per rule, chosen by the generator"""
+    return [rng.choice(LATE_EXCS) for _ in rules]
+
+
+def default_excs(rules):
+    """cases written before the exception classes were generated (corpus): a fixed, rule-dependent choice"""
+    import zlib
+
+    from ..lib.term import to_text
+
+    return [LATE_EXCS[zlib.crc32(to_text(r).encode()) % len(LATE_EXCS)] for r in rules]
+
+
+def is_late(e):
+    """the exception was raised by an injected validator (after the node had been registered)"""
+    return bool(getattr(e, "args", None)) and e.args[0] == LATE_MARK
+
+
+def inject_validators(u, src, rules, excs=None):
+    """adds `def __post_init__(self): super(C, self).__post_init__(); <checks>; raise <Exc>` to the classes named
+    by the rules (subclasses inherit it; cooperative super() so every rule along the MRO applies); the exception class
+    is chosen per rule (ValueError, TypeError, RuntimeError, KeyError, AssertionError, a user-defined Exception subclass)"""
+    excs = list(excs) if excs else default_excs(rules)
     by_cls = {}
-    for r in rules:
-        by_cls.setdefault(_s(r.args[0]), []).append(r)
-    lines = src.split("\n")
+    for r, e in zip(rules, excs):
+        by_cls.setdefault(_s(r.args[0]), []).append((r, e))
+    lines = ["class VerifRejected(Exception):", "    pass", ""] + src.split("\n")
+    if lines[3].startswith("from __future__"):
+        lines = [lines[3]] + lines[:3] + lines[4:]
     out = []
     i = 0
     while i < len(lines):
@@ -156,7 +190,7 @@ def inject_validators(u, src, rules):
                 i += 1
             out.append("    def __post_init__(self):")
             out.append(f"        super({cname}, self).__post_init__()")
-            for r in by_cls[cname]:
+            for r, exc in by_cls[cname]:
                 if r.name == "VReject":
                     fn, v = _s(r.args[1]), r.args[2]
                     if v.name == "VInt":
@@ -166,25 +200,26 @@ def inject_validators(u, src, rules):
                 else:
                     cond = f"self.id.endswith({_s(r.args[1])!r})"
                 out.append(f"        if {cond}:")
-                out.append(f"            raise ValueError('rejected by {cname}')")
+                out.append(f"            raise {exc}({LATE_MARK!r}, 'rejected by {cname}')")
     return "\n".join(out)
 
 
-def load_universe(u, rules):
-    """u.load() with the validators injected into the generated source (a universe is always loaded with the same rules:
-    they are generated once per class family)"""
+def load_universe(u, rules, excs=None):
+    """u.load() with the validators injected into the generated source (a universe is always loaded with the same rules
+    and exception classes: they are generated once per class family)"""
     if not rules:
         return u.load()
+    excs = list(excs) if excs else default_excs(rules)
     if u.module is None:
         import sys
         import types
 
         m = types.ModuleType(f"verif_universe_{u.uid}")
         sys.modules[m.__name__] = m
-        exec(compile(inject_validators(u, u.source(), rules), m.__name__, "exec", dont_inherit=True), m.__dict__)
+        exec(compile(inject_validators(u, u.source(), rules, excs), m.__name__, "exec", dont_inherit=True), m.__dict__)
         u.module = m
-        u._c03_rules = list(rules)
-    assert getattr(u, "_c03_rules", None) == list(rules), "universe loaded twice with different validators"
+        u._c03_rules = (list(rules), excs)
+    assert getattr(u, "_c03_rules", None) == (list(rules), excs), "universe loaded twice with different validators"
     return u.module
 
 
@@ -212,10 +247,17 @@ def L(v, k):
     return Con("L", v, k)
 
 
+OPAQUE = "opaque"   # shadow of a slot / marker: content unknown to the generator
+
+
 class HistGen:
-    def __init__(self, rng, u, nvars, max_ops, rules=()):
+    def __init__(self, rng, u, nvars, max_ops, rules=(), ds=8):
         self.rng, self.u, self.nvars, self.max_ops = rng, u, nvars, max_ops
         self.rules = list(rules)
+        self.ds = ds          # digest size of the case: below 8 bytes ids collide, and what as_obj hands back for a
+                              # registered id may be a node of another class - its result is then opaque to the generator
+        self.slots = {}       # slot -> shadow of the serialized tree, or OPAQUE
+        self.opaque = set()   # variables whose content the generator does not know (shadow None; possibly empty)
         self.maybe = set()   # variables believed to hold self.vars[v] but possibly empty (an id-suffix rule may have fired)
         self.vars = [None] * nvars
         self.ops = []
@@ -312,20 +354,136 @@ class HistGen:
         if verdict is None or any(v in self.maybe for v in used):
             if dst in used:
                 raise GenRetry()
-            if self.vars[dst] is not None or dst in self.maybe:
+            if self.vars[dst] is not None or dst in self.maybe or dst in self.opaque:
                 self.ops.append(Con("Drop", dst))
             self.ops.append(op)
             self.vars[dst] = sh
             self.maybe.add(dst)
+            self.opaque.discard(dst)
         else:
             self.ops.append(op)
             self.vars[dst] = sh
             self.maybe.discard(dst)
+            self.opaque.discard(dst)
 
     def drop(self, v):
         self.ops.append(Con("Drop", v))
         self.vars[v] = None
         self.maybe.discard(v)
+        self.opaque.discard(v)
+
+    # ----- as_dict / as_obj
+    def emit_opaque(self, op, dst):
+        """an operation whose result the generator cannot predict (class, shape, or whether it returns at all): it writes
+        into an emptied variable, which from then on is only used by class-independent operations"""
+        if len(self.opaque) >= 2 and dst not in self.opaque:
+            self.drop(self.rng.choice(sorted(self.opaque)))
+        if self.vars[dst] is not None or dst in self.maybe or dst in self.opaque:
+            self.ops.append(Con("Drop", dst))
+        self.vars[dst] = None
+        self.maybe.discard(dst)
+        self.ops.append(op)
+        self.opaque.add(dst)
+
+    def emit_asdict(self, loc, slot):
+        v, k, sh = loc
+        self.ops.append(Con("AsDict", L(v, k), slot))
+        self.slots[slot] = self.copy(sh) if (self.ds >= 8 and sh is not None and v not in self.maybe) else OPAQUE
+
+    def emit_asobj(self, slot, dst=None):
+        sh = self.slots.get(slot, OPAQUE)
+        dst = self.free_var() if dst is None else dst
+        op = Con("AsObj", slot, dst)
+        if sh is OPAQUE:
+            self.emit_opaque(op, dst)
+        else:
+            # every node of the value passed its class's validation once; an id-suffix rule may still fire (fresh ids)
+            self.push(op, dst, self.copy(sh), None if self.tree_rejects(sh) is not False else False)
+
+    def opaque_op(self):
+        rng = self.rng
+        v = rng.choice(sorted(self.opaque))
+        k = rng.choice([0, 0, 0, 1, 2])
+        r = rng.random()
+        if r < 0.2:
+            self.drop(v)
+        elif r < 0.45:
+            self.ops.append(Con(rng.choice(["DetachSelf", "DetachSelf", "Detach"]), L(v, k)))
+        elif r < 0.55:
+            self.ops.append(Con("Read", L(v, k), rng.randrange(READ_KINDS)))
+        elif r < 0.72:
+            self.ops.append(Con("AsDict", L(v, k), rng.randrange(3)))
+            self.slots[self.ops[-1].args[1]] = OPAQUE
+        elif r < 0.82:
+            dst = self.free_var(avoid=(v,))
+            if dst != v:
+                self.emit_opaque(Con("Dup", dst, L(v, 0)), dst)
+        else:
+            dst = self.free_var(avoid=(v,))
+            if dst == v:
+                return
+            ch = rng.choice([[Con("Ch", "origin", Con("COrigin", rng.choice(ORIGINS)))],
+                             [Con("Ch", "origin", Con("COrigin", rng.choice(ORIGINS)))],
+                             [Con("Ch", "nosuch_field", Con("CProp", Con("VInt", 1)))],
+                             [Con("Ch", "id", Con("CProp", Con("VStr", "forced")))]])
+            self.emit_opaque(Con(rng.choice(["Replace", "Replace", "DcReplace"]), dst, L(v, k), ch), dst)
+
+    def ser_step(self):
+        rng = self.rng
+        k = rng.random()
+        filled = sorted(self.slots)
+        if self.opaque and k < 0.2:
+            return self.opaque_op()
+        if filled and k < 0.4:
+            return self.emit_asobj(rng.choice(filled))
+        if k < 0.5:
+            loc = self.pick_loc(inner=0.3)
+            if loc is not None:
+                self.emit_asdict(loc, rng.randrange(3))
+            return
+        self.ser_script()
+
+    def ser_script(self):
+        """the scenarios of the property: as_obj while everything is alive (the very same objects must come back), after
+        the whole tree was dropped (a fresh process), and while only a part is alive / registered - the parent dropped,
+        detached or replaced, its children still held by other variables; biased to children whose class is NOT (a
+        subclass of) the first member of a union-typed child field"""
+        rng, u = self.rng, self.u
+        which = rng.choice(["alive", "fresh", "partly", "partly", "union", "union", "union"])
+        slot = rng.randrange(3)
+        if which in ("alive", "fresh"):
+            loc = self.pick_loc(inner=0.2)
+            if loc is None:
+                return
+            v, k, sh = loc
+            self.emit_asdict(loc, slot)
+            if which == "fresh":
+                mine = {id(x) for x in sh.pre()}
+                self.drop(v)
+                if rng.random() < 0.6:
+                    for w in range(self.nvars):
+                        if self.vars[w] is not None and any(id(x) in mine for x in self.vars[w].pre()):
+                            self.drop(w)
+            self.emit_asobj(slot)
+            return
+        cands = [c for c in self.cnames if any(f.role != "Prop" for f in u.merged(c))]
+        if which == "union":
+            cands = [c for c in cands if any(f.role != "Prop" and len(f.child_types) > 1 for f in u.merged(c))] or cands
+        if not cands:
+            return
+        dst0 = self.free_var()
+        self.emit_new(dst0, rng.choice(cands), want_kids=True, second=(which == "union"))
+        if self.vars[dst0] is None or dst0 in self.maybe:
+            return
+        self.emit_asdict((dst0, 0, self.vars[dst0]), slot)
+        how = rng.choice(["drop", "drop", "detach_self", "detach_self", "replace", "detach"])
+        if how == "drop":
+            self.drop(dst0)
+        elif how == "replace":
+            self.emit_replace("Replace", (dst0, 0, self.vars[dst0]), self.free_var(avoid=(dst0,)))
+        else:
+            self.ops.append(Con("DetachSelf" if how == "detach_self" else "Detach", L(dst0, 0)))
+        self.emit_asobj(slot, dst=self.free_var(avoid=(dst0,)))
 
     def reject_rule_for(self, cname):
         rs = [r for r in self.rules if r.name == "VReject" and self.u.is_sub(cname, _s(r.args[0]))]
@@ -334,7 +492,7 @@ class HistGen:
         return self.rng.choice(rs) if rs else None
 
     # ----- operations
-    def emit_new(self, dst, cname, depth=0, recipe=None, avoid=(), late=False):
+    def emit_new(self, dst, cname, depth=0, recipe=None, avoid=(), late=False, want_kids=False, second=False):
         rng, u = self.rng, self.u
         if len(self.ops) > self.max_ops + 8:
             raise GenRetry()
@@ -354,11 +512,11 @@ class HistGen:
             if want is not None:
                 n = len(want)
             elif f.role == "Opt":
-                n = 0 if depth >= 2 or rng.random() < 0.4 else 1
+                n = 0 if depth >= 2 or rng.random() < (0.1 if want_kids else 0.4) else 1
             elif f.role == "One":
                 n = 1
             else:
-                n = f.fixed or (0 if depth >= 2 else rng.choice([0, 1, 2, 2, 3]))
+                n = f.fixed or (0 if depth >= 2 else rng.choice([1, 2, 2] if want_kids else [0, 1, 2, 2, 3]))
             shape = "ShMany" if f.role == "Tup" else ("ShOne" if n == 1 else "ShNone")
             elems = []
             for j in range(n):
@@ -366,7 +524,14 @@ class HistGen:
                 if want is not None and rng.random() < 0.85:
                     loc = self.loc_of(want[j])
                 cands = [(v, k) for v, k, s in self.all_locs() if any(u.is_sub(s.cls, t) for t in f.child_types)]
-                if loc is None and cands and rng.random() < 0.65:
+                others = []
+                if second and len(f.child_types) > 1:
+                    # children that are no instance of the FIRST member of the union
+                    c2 = [(v, k) for v, k, s in self.all_locs() if any(u.is_sub(s.cls, t) for t in f.child_types[1:])
+                          and not u.is_sub(s.cls, f.child_types[0])]
+                    cands = c2 or cands
+                    others = [c for t in f.child_types[1:] for c in u.subclasses_of(t) if not u.is_sub(c, f.child_types[0])]
+                if loc is None and cands and rng.random() < (0.4 if others else 0.65):
                     loc = rng.choice(cands)
                 if loc is None:
                     free = [v for v in range(self.nvars) if v not in used]
@@ -374,7 +539,8 @@ class HistGen:
                         empty = [v for v in free if self.vars[v] is None]
                         v = rng.choice(empty or free)
                         used.add(v)
-                        ccls = want[j].cls if want is not None else rng.choice(u.subclasses_of(rng.choice(f.child_types)))
+                        ccls = want[j].cls if want is not None else (
+                            rng.choice(others) if others else rng.choice(u.subclasses_of(rng.choice(f.child_types))))
                         self.emit_new(v, ccls, depth + 1, recipe=want[j] if want is not None else None, avoid=used)
                         if self.vars[v] is None:
                             raise GenRetry()   # the child was (or may have been) rejected by its class
@@ -481,6 +647,9 @@ class HistGen:
             v = max(sizes)[1]
             self.drop(v)
             return
+        if rng.random() < 0.25:
+            self.ser_step()
+            return
         if self.rules and loc is not None and rng.random() < 0.3:
             # a construction rejected by its class AFTER registration: replace / dataclasses.replace / constructor /
             # duplicate (id-suffix rules: the copy of a registered node carries a collision suffix)
@@ -574,21 +743,23 @@ class HistGen:
         tries = 0
         while len(self.ops) < n_ops and tries < 4 * n_ops:
             tries += 1
-            snap = (list(self.vars), len(self.ops), set(self.maybe))
+            snap = (list(self.vars), len(self.ops), set(self.maybe), set(self.opaque), dict(self.slots))
             try:
                 self.step()
             except GenRetry:
                 self.vars = snap[0]
                 del self.ops[snap[1]:]
                 self.maybe = snap[2]
+                self.opaque = snap[3]
+                self.slots = snap[4]
         return self.ops[: self.max_ops + 8]
 
 
-def gen_history(rng, u, tier, lo=4, hi=None, rules=()):
+def gen_history(rng, u, tier, lo=4, hi=None, rules=(), ds=8):
     nvars = rng.randint(4, 8)
     max_ops = 12 if tier == "quick" else 60
     n_ops = rng.randint(min(lo, max_ops), hi or max_ops)
-    g = HistGen(rng, u, nvars, max_ops, rules)
+    g = HistGen(rng, u, nvars, max_ops, rules, ds)
     ops = g.run(n_ops)[:max_ops]
     return mk_hist(u.term(), list(rules), nvars, ops)
 
@@ -606,24 +777,27 @@ def gen_cases(rng, tier):
         if rng.random() < 0.6:
             r0 = add_validated_field(rng, u) if rng.random() < 0.8 else None
             rules = ([r0] if r0 is not None else []) + (gen_rules(rng, u) if r0 is None or rng.random() < 0.5 else [])
+        excs = gen_excs(rng, rules)     # what each validating class raises: one exception class per rule
         uj = universe_to_json(u)
         rj = rules_to_json(rules)
         for j in range(per):
+            ds = rng.choice([1, 1, 2, 8, 8])
             if tier == "quick":
-                t = gen_history(rng, u, tier, rules=rules)
+                t = gen_history(rng, u, tier, rules=rules, ds=ds)
             elif j == 0:
                 # thorough: one short history per class family stays small enough for the in-kernel re-evaluation
                 # (harness/main.py samples inputs below 6000 characters; the observations of long histories are
                 # megabytes of text, which coqc cannot hold as string literals)
-                t = gen_history(rng, u, tier, lo=4, hi=8, rules=rules)
+                t = gen_history(rng, u, tier, lo=4, hi=8, rules=rules, ds=ds)
             else:
-                t = gen_history(rng, u, tier, lo=40, hi=60, rules=rules)
+                t = gen_history(rng, u, tier, lo=40, hi=60, rules=rules, ds=ds)
                 if len(to_text(t)) < 6000:
                     continue
-            cases.append({"kind": "history+validators" if rules else "history", "input": t,
-                          "digest_size": rng.choice([1, 1, 2, 8]), "opts": {"universe": uj, "rules": rj}})
-    # implementation-only probe of the as_dict/as_obj forced-id path, which is proved about in Model/RegistrySer.v but is
-    # not an operation of the run (open finding C03:asobj-forced-id-evicts-live-child): rides on a short valid history
+            has_ser = any(op.name == "AsObj" for op in hist_parts(t)[3])
+            cases.append({"kind": ("history+validators" if rules else "history") + ("+asobj" if has_ser else ""), "input": t,
+                          "digest_size": ds, "opts": {"universe": uj, "rules": rj, "excs": excs}})
+    # implementation-only probe of the forced-id path of as_obj (finding C03:asobj-forced-id-evicts-live-child, repaired in
+    # /repo): a fixed 1-byte-digest collision scenario, kept as the regression case; rides on a short valid history
     if cases:
         c0 = min(cases, key=lambda c: len(to_text(c["input"])))
         cases.append(dict(c0, kind="probe:asobj-forced-id", digest_size=1, opts=dict(c0["opts"], probe="asobj_forced_id")))
@@ -632,10 +806,11 @@ def gen_cases(rng, tier):
 
 # ------------------------------------------------------------------------------------------------ implementation
 class Run:
-    def __init__(self, u, nvars, rules=()):
+    def __init__(self, u, nvars, rules=(), excs=None):
         self.u = u
-        self.mod = load_universe(u, list(rules))
+        self.mod = load_universe(u, list(rules), excs)
         self.vars = [None] * nvars
+        self.slots = {}       # slot -> (class of the serialized root, dict): plain values, no reference to a node
         self.seen = []        # (weakref, id string) in order of first sight
         self.seen_at = {}     # id(obj) -> index in seen
         self.kf = {}
@@ -727,7 +902,7 @@ def snapshot(run):
                     vals.append((f.name, "tuple", tuple(id(x) for x in v)))
                 else:
                     vals.append((f.name, type(v).__name__, repr(v)))
-            snap[id(o)] = (weakref.ref(o), (tuple(vals), o.id, o.content_id, hash(o)))
+            snap[id(o)] = (weakref.ref(o), (tuple(vals), o.id, o.content_id, hash(o)), ASTNode.get_any(o.id) is o)
     return snap
 
 
@@ -842,7 +1017,9 @@ def exec_op(run, op):
             kwargs[k.args[0].decode()] = v
         try:
             obj = getattr(run.mod, cname)(origin=mk_origin(origin), **kwargs)
-        except ValueError:   # the class's own validation, after the node was registered
+        except Exception as e:   # the class's own validation, after the node was registered: whatever class it raises
+            if not is_late(e):
+                raise
             return Con("Raised", "ValueError"), Con("XNone")
         run.vars[dst] = obj
         return ("node", obj), Con("XNone")
@@ -853,7 +1030,9 @@ def exec_op(run, op):
             return Con("Skipped"), Con("XNone")
         try:
             res = src.duplicate()
-        except ValueError:
+        except Exception as e:
+            if not is_late(e):
+                raise
             return Con("Raised", "ValueError"), Con("XNone")
         all_new = all(not run.is_seen(o) for o in run.walk(res))
         try:
@@ -875,10 +1054,14 @@ def exec_op(run, op):
             kwargs[c.args[0].decode()] = v
         try:
             res = src.replace(**kwargs) if name == "Replace" else dataclasses.replace(src, **kwargs)
-        except ValueError:
-            return Con("Raised", "ValueError"), Con("XNone")
-        except TypeError:
-            return Con("Raised", "TypeError"), Con("XNone")
+        except Exception as e:
+            # a late rejection (any exception class) is the model's single `Raised EValue`; the two early failures of
+            # dataclasses.replace keep their classes (non-init key: ValueError, unknown key: TypeError)
+            if is_late(e) or isinstance(e, ValueError):
+                return Con("Raised", "ValueError"), Con("XNone")
+            if isinstance(e, TypeError):
+                return Con("Raised", "TypeError"), Con("XNone")
+            raise
         same = []
         if "origin" not in kwargs:
             same.append(["origin", res.origin is src.origin])
@@ -911,14 +1094,34 @@ def exec_op(run, op):
             return Con("Skipped"), Con("XNone")
         do_read(run, x, op.args[1])
         return Con("OkNone"), Con("XNone")
+    if name == "AsDict":
+        x = run.resolve(op.args[0])
+        if x is None:
+            return Con("Skipped"), Con("XNone")
+        run.slots[op.args[1]] = (type(x), x.as_dict())
+        return Con("OkNone"), Con("XNone")
+    if name == "AsObj":
+        slot, dst = op.args
+        if slot not in run.slots:
+            return Con("Skipped"), Con("XNone")
+        cls, d = run.slots[slot]
+        try:
+            res = cls.as_obj(d)
+        except Exception:   # a class rejected a node while the value was read (mashumaro wraps nested failures)
+            return Con("Raised", "ValueError"), Con("XNone")
+        flags = [run.is_seen(o) for o in run.walk(res)]
+        run.vars[dst] = res
+        return ("node", res), Con("XObj", flags)
     raise ValueError("unknown op " + name)
 
 
-def observe(run, result, extra, before):
+def observe(run, result, extra, before, op=None):
     from pyoak.node import ASTNode
 
     gc.collect()
     d = run.desig_map()
+    # C10: the operations specified to change the registry membership of an existing node
+    exempt = op is not None and (op.name in ("Detach", "DetachSelf") or (op.name == "Replace" and isinstance(result, tuple)))
     if isinstance(result, tuple):
         result = Con("OkNode", tdesig(d, result[1]))
     classes = [getattr(run.mod, c.name) for c in run.u.classes] + [ASTNode]
@@ -941,9 +1144,10 @@ def observe(run, result, extra, before):
                 fresh.append(tcell(run, d, o))
     seen = [[wr() is not None, tdesig(d, ASTNode.get_any(i))] for wr, i in run.seen]
     after = snapshot(run)
-    frame_ok = all(after[k][1] == s for k, (wr, s) in before.items() if k in after and after[k][0]() is wr())
-    hash_ok = all(s[3] == hash(s[1]) for _, s in after.values())
-    return Con("Step", result, pervar, fresh, seen, extra, Con("Frame", frame_ok, hash_ok)), after
+    frame_ok = all(after[k][1] == s for k, (wr, s, _) in before.items() if k in after and after[k][0]() is wr())
+    hash_ok = all(s[3] == hash(s[1]) for _, s, _ in after.values())
+    member_ok = exempt or all(after[k][2] == m for k, (wr, _, m) in before.items() if k in after and after[k][0]() is wr())
+    return Con("Step", result, pervar, fresh, seen, extra, Con("Frame", frame_ok, hash_ok, member_ok)), after
 
 
 def frozen_obs(run):
@@ -1048,20 +1252,21 @@ def impl_history(t, case):
     assert [norm(r) for r in rules] == rules_from_json(case["opts"].get("rules")), "rules of the term and of the case differ"
     old = config.ID_DIGEST_SIZE
     config.ID_DIGEST_SIZE = case.get("digest_size") or 8
-    run = Run(u, nvars, rules)
+    run = Run(u, nvars, rules, case["opts"].get("excs"))
     try:
         gc.collect()
         steps = []
         before = {}
         for op in ops:
             result, extra = exec_op(run, op)
-            st, before = observe(run, result, extra, before)
+            st, before = observe(run, result, extra, before, op)
             del result
             steps.append(st)
         out = Con("Out", steps, frozen_obs(run))
     finally:
         config.ID_DIGEST_SIZE = old
         run.vars = []
+        run.slots = {}
         del run
         gc.collect()
     return out
@@ -1081,6 +1286,8 @@ def step_diffs(si, sm, which):
             y = [n.args[4] if isinstance(n, Con) and n.name == "Nd" else n for n in y]
         if x != y:
             out.append(STEP_CLAUSES[idx])
+    if 4 not in which and (si.args[4].name == "XObj" or sm.args[4].name == "XObj") and si.args[4] != sm.args[4]:
+        out.append("asobj-result")   # as_obj: the live original where the id is registered, a new object otherwise
     return out
 
 
